@@ -50,8 +50,15 @@ BUDGET2 = 1.0  # CPU seconds when a sweep time-out of min_cost_flow / solve_assi
 BUDGET2_NS = 40.0  # the same for network_simplex: enough for its own max_iter=10^6 pivots on <= 8 nodes (2-10 CPU-s), so a
 #                    pivot loop that is only stopped by max_iter comes back and is judged on its result, not as a hang
 BIG = 40  # networks with more arcs than this are "ladder" instances: certificate oracles, own CPU budgets
-BUDGET1_BIG = 60.0  # per call in the sweep (typical call 0.01-2 s)
-BUDGET2_BIG = 300.0  # re-run alone
+# ladder instances: CPU budget per call in the sweep = max(0.5 s, size/300) - at least 40x the slowest call seen on the unchanged
+# tree (2100 arcs: 0.18 s; 65x65 assignment: 0.15 s); 10x that when a sweep time-out is re-run alone.  After one time-out of a
+# function inside a worker job the remaining big calls of that function in the job are skipped (and counted), so a solver
+# that hangs on every large instance costs seconds, not hours.
+_BREAKER = {}
+
+
+def big_budget(size, confirm):
+    return max(0.5, size / 300.0) * (10 if confirm else 1)
 
 
 class _Timeout(Exception):
@@ -108,7 +115,8 @@ def judge(fname, st, res, n, arcs, supplies, oracle, back=None):
                         f"(cut {oracle['cut']})"))
         return out
     if says_inf:
-        return [(Pf + "infeasible-iff", f"INFEASIBLE reported, a feasible flow of cost {oracle['cost']} exists: {oracle['flow']}")]
+        wit = oracle["flow"] if len(arcs) <= BIG else "per-arc flow omitted, certified by potentials"
+        return [(Pf + "infeasible-iff", f"INFEASIBLE reported, a feasible flow of cost {oracle['cost']} exists: {wit}")]
     sol = res.solution
     if not isinstance(sol, dict):
         return [(Pf + "feasible-flow", f"status {res.status.name} but solution is {sol!r}")]
@@ -176,14 +184,22 @@ def eval_flow_case(case, budget=BUDGET1, only=None, oracle=None, budget_ns=None,
     supplies = list(case["supplies"])
     if oracle is None:
         oracle = oracle_for(n, arcs, supplies)
-    if len(arcs) > BIG:
-        budget = budget_ns = BUDGET1_BIG if budget == BUDGET1 else BUDGET2_BIG
+    big = len(arcs) > BIG
+    if big:
+        budget = budget_ns = big_budget(len(arcs), budget != BUDGET1)
     out = []
-    info = {"oracle": oracle["status"], "timeouts": []}
+    info = {"oracle": oracle["status"], "timeouts": [], "skipped": 0}
     shape = st_shape(supplies)
     if shape is None and not any(supplies) and "s" in case:
         shape = (case["s"], case["t"], 0)
     r_m = r_n = None
+    if big and budget < 5 * big_budget(len(arcs), False):  # sweep only
+        if _BREAKER.get("min_cost_flow") and only is None and shape is not None:
+            only = "network_simplex"
+            info["skipped"] += 1
+        if _BREAKER.get("network_simplex") and only in (None, "network_simplex"):
+            info["skipped"] += 1
+            only = "min_cost_flow" if only is None else "nothing"
     if shape is not None and only in (None, "min_cost_flow"):
         s, t, d = shape
         scheme = case.get("labels", "int")
@@ -195,6 +211,7 @@ def eval_flow_case(case, budget=BUDGET1, only=None, oracle=None, budget_ns=None,
         v = judge("min_cost_flow", st, res, n, arcs, supplies, oracle, back)
         if st == "timeout":
             info["timeouts"].append("min_cost_flow")
+            _BREAKER["min_cost_flow"] = big
         elif st == "ok":
             r_m = res
         out += v
@@ -207,6 +224,7 @@ def eval_flow_case(case, budget=BUDGET1, only=None, oracle=None, budget_ns=None,
         v = judge("network_simplex", st, res, n, arcs, supplies, oracle)
         if st == "timeout":
             info["timeouts"].append("network_simplex")
+            _BREAKER["network_simplex"] = big
         elif st == "ok":
             r_n = res
         out += v
@@ -218,6 +236,7 @@ def eval_flow_case(case, budget=BUDGET1, only=None, oracle=None, budget_ns=None,
         elif not im and r_m.objective != r_n.objective:
             out.append(("C09/agree", f"min_cost_flow cost {r_m.objective!r}, network_simplex cost {r_n.objective!r}"))
     info["both"] = shape is not None
+    info["iters"] = {"min_cost_flow": getattr(r_m, "iterations", 0) or 0, "network_simplex": getattr(r_n, "iterations", 0) or 0}
     return out, info
 
 
@@ -233,9 +252,13 @@ def eval_assign_case(case, budget=BUDGET1_ASSIGN, same_object=None):
     best = assignment_brute(mat) if n * m <= 36 else assignment_optimum(mat)
     info = {"oracle": "optimal", "timeouts": [], "both": False}
     if n * m > 36:
-        budget = BUDGET1_BIG if budget <= BUDGET1_ASSIGN else BUDGET2_BIG
+        if _BREAKER.get("solve_assignment") and budget <= BUDGET1_ASSIGN:
+            info["skipped"] = 1
+            return [], info
+        budget = big_budget(n * m * 3 / 8, budget > BUDGET1_ASSIGN)
     st, res = guarded(budget, solve_assignment, same_object if same_object is not None else [list(r) for r in mat])
     if st == "timeout":
+        _BREAKER["solve_assignment"] = n * m > 36
         info["timeouts"].append("solve_assignment")
         return [(Pf + "terminates", "did not come back within the CPU budget")], info
     if st == "exc":
@@ -451,9 +474,15 @@ class Tally:
         self.shape_to = {}  # same key -> number of sweep time-outs
         self.shape_calls = {}  # same key -> number of calls
         self.kept = {}
+        self.max_iter = {}  # function -> largest Result.iterations seen
+        self.skipped = 0  # big calls not made because the function had already timed out in this job
 
     def add(self, case, out, info):
         self.n += 1
+        self.skipped += info.get("skipped", 0)
+        for fn, it in (info.get("iters") or {}).items():
+            if it > self.max_iter.get(fn, 0):
+                self.max_iter[fn] = it
         if nontrivial(case):
             self.keys.append(case_key(case))
         shp = instance_shape(case)
@@ -623,15 +652,221 @@ def gen_assign_case(rng, dmax):
     return {"kind": "assign", "matrix": [[rng.choice(vals) for _ in range(m)] for _ in range(n)]}
 
 
+# ------------------------------------------------------------------------- round 2: beyond the small scope
+def gen_big_network(rng, n, m):
+    """n nodes, about m arcs: distinct ordered pairs (anti-parallel pairs occur by themselves), sometimes parallel duplicates;
+    negative costs only through a potential shift of non-negative costs (no negative cycle possible)."""
+    m = min(m, n * (n - 1))
+    pairs = set()
+    while len(pairs) < m:
+        u, v = rng.randrange(n), rng.randrange(n)
+        if u != v:
+            pairs.add((u, v))
+    pairs = sorted(pairs)
+    rng.shuffle(pairs)
+    multi = rng.choice(("simple", "simple", "simple", "multi"))
+    neg = rng.random() < 0.25
+    pot = [rng.randint(0, 5) if neg else 0 for _ in range(n)]  # cost + pot[u] - pot[v]: negative arcs, no negative cycle
+    capmax = rng.choice((1, 3, 8, 8))
+    costmax = rng.choice((3, 20, 20, 100))
+    arcs = []
+    for u, v in pairs:
+        if multi == "multi" and arcs and rng.random() < 0.06:
+            u, v = arcs[rng.randrange(len(arcs))][:2]
+        arcs.append([u, v, rng.randint(0, capmax), rng.randint(0, costmax) + pot[u] - pot[v]])
+    return arcs
+
+
+def gen_ladder_case(rng, total):
+    """Network whose arc count + node count is `total` (what a solver that adds one artificial arc per node sees)."""
+    n = rng.randint(max(8, min(12, total // 6)), max(12, min(120, total // 5)))
+    m = max(n, total - n)
+    arcs = gen_big_network(rng, n, m)
+    r = rng.random()
+    if r < 0.45:  # one producer, one consumer: both solvers
+        s = rng.randrange(n)
+        t = rng.choice([x for x in range(n) if x != s])
+        mf = _maxflow(n, arcs, s, t)
+        d = rng.choice((mf, mf, max(mf - 1, 0), mf // 2, rng.randint(0, mf), mf + 1, 1))
+        b = [0] * n
+        b[s] += d
+        b[t] -= d
+        case = {"kind": "flow", "n": n, "arcs": arcs, "supplies": b, "s": s, "t": t}
+        if rng.random() < 0.2:
+            case["labels"] = "str"
+        return case
+    b = [0] * n
+    if r < 0.85:  # supplies induced by a random flow: feasible, many producers and consumers
+        dens = rng.choice((0.1, 0.3, 1.0))
+        for u, v, c, _w in arcs:
+            if rng.random() < dens:
+                f = rng.randint(0, c)
+                b[u] += f
+                b[v] -= f
+    else:  # a few random producers / consumers, often infeasible
+        for _ in range(rng.randint(1, 4)):
+            x, y = rng.sample(range(n), 2)
+            q = rng.randint(1, 6)
+            b[x] += q
+            b[y] -= q
+    return {"kind": "flow", "n": n, "arcs": arcs, "supplies": b}
+
+
+BIGV = (10 ** 6, 10 ** 9, 2 ** 31)
+
+
+def gen_magnitude_case(rng):
+    """Small network, extreme but exactly representable numbers: equal costs (ties everywhere), base + {0, 1}, huge
+    capacities, demands at exact multiples of the common capacity and one off."""
+    from oracles.flow_exact import has_negative_cycle
+    while True:
+        n, arcs = gen_network(rng, 3, 7)
+        seen = set()  # no parallel arcs here: splitting a pooled value of 10^9 units over parallel arcs cannot be enumerated
+        arcs = [a for a in arcs if (a[0], a[1]) not in seen and not seen.add((a[0], a[1]))]
+        cs = rng.choice(("ties", "gap1", "mixed", "keep"))
+        base = rng.choice(BIGV)
+        for a in arcs:
+            if cs == "ties":
+                a[3] = base if a[3] >= 0 else -1
+            elif cs == "gap1":
+                a[3] = base + rng.choice((0, 0, 1, -1))
+            elif cs == "mixed":
+                a[3] = rng.choice((0, 1, base, base + 1, a[3]))
+        ks = rng.choice(("same", "big", "keep"))
+        k = rng.choice((1, 2, 3, 10 ** 6, 2 ** 31 + 1))
+        for a in arcs:
+            if ks == "same":
+                a[2] = k
+            elif ks == "big":
+                a[2] = rng.choice((0, 1, k, k + 1, 2 * k))
+        if has_negative_cycle(n, arcs):
+            continue
+        s = rng.randrange(n)
+        t = rng.choice([x for x in range(n) if x != s])
+        mf = _maxflow(n, arcs, s, t)
+        d = rng.choice((mf, mf, max(mf - 1, 0), mf + 1, k, 2 * k, max(k - 1, 0), k + 1, 0))
+        b = [0] * n
+        b[s] += d
+        b[t] -= d
+        return {"kind": "flow", "n": n, "arcs": arcs, "supplies": b, "s": s, "t": t}
+
+
+def gen_history_case(rng):
+    """2..5 solves on the same arc list / supply list / graph dict, edited in place in between."""
+    from oracles.flow_exact import has_negative_cycle
+    base = gen_flow_case(rng, 3, 7)
+    n = base["n"]
+    A = [list(a) for a in base["arcs"]]
+    b = list(base["supplies"])
+    shape = st_shape(b)
+    s, t = (shape[0], shape[1]) if shape else (base.get("s", 0), base.get("t", n - 1))
+    steps = [{"edits": [], "supplies": list(b), "s": s, "t": t}]
+    for _ in range(rng.randint(1, 4)):
+        edits = []
+        kind = rng.random()
+        if kind < 0.1:
+            pass  # the same call again
+        elif kind < 0.25:  # other demand / other terminals / other supply vector, networks untouched
+            if rng.random() < 0.6:
+                s, t = (s, t) if rng.random() < 0.5 else tuple(rng.sample(range(n), 2))
+                d = rng.randint(0, max(1, _maxflow(n, A, s, t)) + 1)
+                b = [0] * n
+                b[s] += d
+                b[t] -= d
+            else:
+                b = [rng.randint(-2, 2) for _ in range(n - 1)]
+                b.append(-sum(b))
+        else:
+            for _ in range(rng.choice((1, 1, 1, 2, 3))):
+                if not A:
+                    break
+                trial = [list(a) for a in A]
+                op = rng.random()
+                k = rng.randrange(len(trial))
+                ed = []
+                if op < 0.3:  # capacity only
+                    old = trial[k][2]
+                    trial[k][2] = rng.choice([x for x in (0, 1, 2, 3, old + 1, old + 2, max(old - 1, 0)) if x != old])
+                    ed = [["set", k, trial[k][2], trial[k][3]]]
+                elif op < 0.55:  # cost only
+                    old = trial[k][3]
+                    trial[k][3] = rng.choice([x for x in (0, 1, 2, 5, old + 1, old + 3, old - 1, 7) if x != old])
+                    ed = [["set", k, trial[k][2], trial[k][3]]]
+                elif op < 0.7:  # swap capacity and cost of two arcs: counts and totals unchanged
+                    j = rng.randrange(len(trial))
+                    trial[k][2:], trial[j][2:] = trial[j][2:], trial[k][2:]
+                    ed = [["set", k, trial[k][2], trial[k][3]], ["set", j, trial[j][2], trial[j][3]]]
+                elif op < 0.8:
+                    x, y = rng.sample(range(n), 2)
+                    trial.append([x, y, rng.randint(1, 3), rng.randint(0, 5)])
+                    ed = [["add"] + trial[-1]]
+                elif op < 0.88:
+                    del trial[k]
+                    ed = [["del", k]]
+                elif op < 0.95:  # delete + add: arc count unchanged
+                    del trial[k]
+                    x, y = rng.sample(range(n), 2)
+                    trial.append([x, y, rng.randint(1, 3), rng.randint(0, 5)])
+                    ed = [["del", k], ["add"] + trial[-1]]
+                else:
+                    ed = [["rekey", trial[k][0]]]
+                if has_negative_cycle(n, trial):
+                    continue
+                A = trial
+                edits += ed
+        steps.append({"edits": edits, "supplies": list(b), "s": s, "t": t})
+    case = {"kind": "history", "n": n, "arcs": base["arcs"], "steps": steps}
+    if base.get("labels"):
+        case["labels"] = base["labels"]
+    return case
+
+
+def gen_assign_history(rng):
+    base = gen_assign_case(rng, 5)["matrix"]
+    n, m = len(base), len(base[0])
+    steps = [[]]
+    for _ in range(rng.randint(1, 3)):
+        steps.append([] if rng.random() < 0.15 else
+                     [[rng.randrange(n), rng.randrange(m), rng.choice((0, 1, 2, 3, -4, 9))] for _ in range(rng.randint(1, 3))])
+    return {"kind": "assign-history", "matrix": base, "steps": steps}
+
+
+def gen_big_assign(rng, d):
+    n = d if rng.random() < 0.6 else rng.randint(max(1, d - 4), d)
+    m = d if rng.random() < 0.6 else rng.randint(max(1, d - 4), d)
+    vals = rng.choice(((0, 1, 2, 3), (0, 1), tuple(range(-5, 6)), tuple(range(0, 100)), (5, 5, 5, 7, 100)))
+    return {"kind": "assign", "matrix": [[rng.choice(vals) for _ in range(m)] for _ in range(n)]}
+
+
 def w_seeded(job):
     kind, seed, count, lo, hi = job
     rng = random.Random(seed)
     tl = Tally()
+    lasts = []
+    _BREAKER.clear()
     for _ in range(count):
-        case = gen_assign_case(rng, hi) if kind == "assign" else gen_flow_case(rng, lo, hi)
+        if kind == "assign":
+            case = gen_assign_case(rng, hi)
+        elif kind == "ladder":
+            case = gen_ladder_case(rng, rng.randint(lo, hi))
+        elif kind == "magnitude":
+            case = gen_magnitude_case(rng)
+        elif kind == "history":
+            case = gen_history_case(rng)
+            out, info, last = eval_history(case, want_last=True)
+            tl.add(case, out, info)
+            if not info["timeouts"] and len(lasts) < 12:
+                lasts.append((case, last))
+            continue
+        elif kind == "assign-history":
+            case = gen_assign_history(rng)
+        elif kind == "big-assign":
+            case = gen_big_assign(rng, hi)
+        else:
+            case = gen_flow_case(rng, lo, hi)
         out, info = eval_case(case)
         tl.add(case, out, info)
-    return tl.pack() + (0,)
+    return tl.pack() + (0, {"lasts": lasts, "max_iter": tl.max_iter, "skipped": tl.skipped})
 
 
 def w_assign_exhaustive(job):
@@ -679,8 +914,11 @@ def w_list(cases):
 
 # ------------------------------------------------------------------------------------------------------- run
 def _size(case):
-    if case["kind"] == "assign":
-        return (len(case["matrix"]) * len(case["matrix"][0]) if case["matrix"] else 0, 0, 0)
+    if case["kind"] in ("assign", "assign-history"):
+        return (len(case["matrix"]) * len(case["matrix"][0]) if case["matrix"] else 0, len(case.get("steps", [])), 0)
+    if case["kind"] == "history":
+        return (case["n"], len(case["arcs"]) + sum(1 + len(st["edits"]) for st in case["steps"]),
+                sum(a[2] + abs(a[3]) for a in case["arcs"]))
     return (case["n"], len(case["arcs"]), sum(abs(b) for b in case["supplies"]) + sum(a[2] + abs(a[3]) for a in case["arcs"]))
 
 
@@ -694,15 +932,22 @@ def run(ctx: Ctx):
     rng = random.Random(ctx.seed)
     notes = {}
     all_timeouts = []
+    lasts_all = []
     pending = []  # (obligation, case, detail) from all scopes; the smallest per (obligation, instance shape) are reported
 
     def scope_run(name, results, **desc):
-        n = 0
+        n = n_skip = 0
+        max_iter = {}
         fails, calls, shapes = {}, {}, {}
         viol = []
         failing_cases = n_to = skipped = 0
         for r in results:
-            rn, keys, rviol, rfails, rfc, touts, ntouts, rcalls, rshape, rskip = r
+            rn, keys, rviol, rfails, rfc, touts, ntouts, rcalls, rshape, rskip = r[:10]
+            if len(r) > 10:
+                lasts_all.extend(r[10]["lasts"])
+                n_skip += r[10]["skipped"]
+                for fn, it in r[10]["max_iter"].items():
+                    max_iter[fn] = max(max_iter.get(fn, 0), it)
             for k, (c_fail, c_to, c_all) in rshape.items():
                 cur = shapes.setdefault(k, {"wrong_result": 0, "sweep_timeouts": 0, "calls": 0})
                 cur["wrong_result"] += c_fail
@@ -721,7 +966,8 @@ def run(ctx: Ctx):
             all_timeouts.extend(touts)
         ctx.scope(name, evaluations=n, calls=calls, cases_with_a_failing_clause=failing_cases, failing_by_obligation=fails,
                   outcome_by_function_and_instance_shape=shapes, sweep_timeouts=n_to,
-                  skipped_negative_cycle=skipped, **desc)
+                  skipped_negative_cycle=skipped, **({"largest_iteration_count_reported": max_iter} if max_iter else {}),
+                  **({"big_calls_skipped_after_a_timeout_in_the_same_job": n_skip} if n_skip else {}), **desc)
         notes[name] = {"evaluations": n, "calls": calls, "cases_with_a_failing_clause": failing_cases,
                        "failing_by_obligation": fails, "outcome_by_function_and_instance_shape": shapes,
                        "sweep_timeouts": n_to}
@@ -781,6 +1027,69 @@ def run(ctx: Ctx):
     scope_run("random assignment matrices", pmap(w_seeded, jobs), runs=nj * per, shape="1..6 x 1..6",
               values="{0..3} | {0,1} | -5..5 | {5,7,100} with many ties")
 
+    # ---- round 2: size ladder (arc count + node count around the powers of two and round numbers), certificate oracles
+    if ctx.quick:
+        ladder = [(20, 49, 96), (50, 100, 48), (120, 127, 32), (128, 128, 16), (129, 140, 64), (141, 255, 96), (256, 257, 16), (258, 300, 48),
+                  (301, 520, 32), (521, 600, 8)]
+    else:
+        ladder = [(20, 49, 2400), (50, 100, 800), (120, 127, 400), (128, 128, 200), (129, 140, 800), (141, 255, 1600), (256, 257, 300),
+                  (258, 300, 800), (301, 511, 600), (512, 513, 200), (514, 600, 300), (1000, 1100, 96), (2040, 2100, 32)]
+    jobs = []
+    for lo, hi, cnt in ladder:
+        per_job = max(1, min(8, 1200 // hi))
+        jobs += [("ladder", rng.randrange(1 << 60), per_job, lo, hi) for _ in range(max(1, cnt // per_job))]
+    jobs.sort(key=lambda j: -j[4])
+    scope_run(f"size ladder: networks with {ladder[0][0]}..{ladder[-1][1]} arcs+nodes (certifying oracles above 40 arcs)", pmap(w_seeded, jobs, chunksize=1),
+              arcs_plus_nodes={f"{lo}..{hi}": cnt for lo, hi, cnt in ladder}, nodes="8..120", capacities="0..8", costs="-5..100",
+              shapes="45% one producer/one consumer with demand in {maxflow, maxflow-1, maxflow/2, random, maxflow+1, 1} (both "
+                     "solvers, agreement); 40% supplies induced by a random flow; 15% a few random producers/consumers; 25% "
+                     "of the networks carry parallel/anti-parallel duplicates, 25% negative costs (potential-shifted)",
+              oracle="independent successive-shortest-path solver certified by potentials / violated cut; returned flow certified "
+                     "on its own (feasible + no negative residual cycle)")
+    dims = [(8, 40), (12, 24), (17, 8), (33, 2)] if ctx.quick else [(8, 600), (12, 400), (17, 200), (33, 60), (65, 16)]
+    jobs = []
+    for d, cnt in dims:
+        per_job = max(1, 64 // d)
+        jobs += [("big-assign", rng.randrange(1 << 60), per_job, 0, d) for _ in range(max(1, cnt // per_job))]
+    jobs.sort(key=lambda j: -j[4])
+    scope_run("solve_assignment beyond brute force (Hungarian method with dual certificate)", pmap(w_seeded, jobs, chunksize=1),
+              dimensions={str(d): cnt for d, cnt in dims}, shape="d x d (60%) or (d-4..d) x (d-4..d)",
+              values="{0..3} | {0,1} | -5..5 | 0..99 | {5,7,100}")
+
+    # ---- round 2: magnitudes and ties
+    nj = 48 if ctx.quick else 800
+    jobs = [("magnitude", rng.randrange(1 << 60), per, 3, 7) for _ in range(nj)]
+    scope_run("magnitudes and ties", pmap(w_seeded, jobs), runs=nj * per, nodes="3..7",
+              costs="all equal to 10^6 | 10^9 | 2^31; base + {-1,0,1}; mixed {0,1,base,base+1}", capacities="all equal k | {0,1,k,k+1,2k}, "
+              "k in {1,2,3,10^6,2^31+1}", demand="maxflow, maxflow +- 1, k, 2k, k +- 1, 0")
+
+    # ---- round 2: history mode
+    nj = 64 if ctx.quick else 1200
+    jobs = [("history", rng.randrange(1 << 60), per, 3, 7) for _ in range(nj)]
+    scope_run("history mode: same arc list / supply list / graph dict, in-place edits between calls", pmap(w_seeded, jobs),
+              sequences=nj * per, calls_per_sequence="2..5",
+              edits="capacity replaced, cost replaced, capacity+cost of two arcs swapped (counts and totals unchanged), arc added, "
+                    "arc deleted, delete+add, key re-inserted; other demand / terminals / supply vector on untouched networks; "
+                    "same call repeated", base="random networks with 3..7 nodes")
+    nj = 16 if ctx.quick else 300
+    jobs = [("assign-history", rng.randrange(1 << 60), per, 0, 5) for _ in range(nj)]
+    scope_run("history mode: same cost matrix object, cells edited in place", pmap(w_seeded, jobs), sequences=nj * per,
+              calls_per_sequence="2..4", shape="1..5 x 1..5")
+    fresh = fresh_process([l for _c, l in lasts_all])
+    n_diff = 0
+    for (case, last), got in zip(lasts_all, fresh):
+        for key, fname in (("r_n", "network_simplex"), ("r_m", "min_cost_flow")):
+            if last.get(key) is not None and json.loads(json.dumps(last[key])) != got.get(key):
+                n_diff += 1
+                if n_diff <= 2:
+                    ctx.violation(f"C09/{fname}/frame:result-independent-of-call-history", case,
+                                  f"last call of the sequence returned {str(last[key])[:200]}; a fresh interpreter on equal, newly "
+                                  f"built objects returns {str(got.get(key))[:200]}")
+    ctx.count(len(fresh), ())
+    ctx.scope("history mode: last call of a sequence vs. fresh process", evaluations=len(fresh), differing=n_diff,
+              how="`python -m checks.C09 --fresh`: new interpreter, equal arc list / supply list / graph dict built from scratch; "
+                  "status, objective and flow dictionary must be identical")
+
     pending.sort(key=lambda v: _size(v[1]))
     seen = {}
     for ob, case, detail in pending:
@@ -820,13 +1129,18 @@ def run(ctx: Ctx):
     ctx.notes["scope_results"] = notes
     ctx.exhaustive = True
     srng = random.Random(ctx.seed + 1)
-    ctx.count(0, (), [gen_flow_case(srng, 3, 6), gen_flow_case(srng, 3, 6), gen_assign_case(srng, 4)])
+    ctx.count(0, (), [gen_flow_case(srng, 3, 6), gen_flow_case(srng, 3, 6), gen_assign_case(srng, 4), gen_history_case(srng),
+                      gen_magnitude_case(srng)])
     ctx.rule = ("flow case = (n, ordered arc list (u,v,cap,cost), supply vector); network_simplex is called on every case, "
                 "min_cost_flow (graph dict built in arc order) on the cases with one producer and one consumer, and the two are "
                 "compared there; assignment case = cost matrix. Every Result is checked clause by clause against the exact "
                 "optimum (oracle certified by potentials / violated cut; enumeration of all flows on networks with <= 3 arcs). "
+                "Networks with more than 40 arcs (size ladder) are decided by certificates instead: reference optimum certified by "
+                "potentials / cut, returned flow certified by the absence of a negative residual cycle. A history case = initial "
+                "network + steps (in-place edits, supply vector, terminals); both solvers are called after every step on the same "
+                "list / dict objects and judged against the network as it is then. "
                 "non-trivial = some non-zero supply and >= 2 arcs of positive capacity (assignment: >= 2x2 with >= 2 distinct "
-                "entries); distinct = different (n, ordered arcs, supplies, s, t, labels) / matrix.")
+                "entries); distinct = different (n, ordered arcs, supplies, s, t, labels, steps) / matrix.")
     ctx.assumptions += [
         "domain: integer capacities >= 0, integer costs, no negative-cost directed cycle among the arcs (capacities ignored), "
         "integer supplies summing to 0 / demand >= 0, source != sink, no self-loops",
@@ -837,8 +1151,17 @@ def run(ctx: Ctx):
         "terminating; sweep time-outs beyond the re-run cap are counted in coverage.timeouts, not judged",
         "LP duality for min-cost flow (feasible flow + potentials with complementary slackness => optimal); Gale's cut condition",
     ]
-    ctx.trusted += ["oracles/flow_exact.py: mcf_exact (self-certifying through certify_optimal / certify_infeasible), mcf_brute, "
-                    "decomposition_costs, pooled_flow_defects, assignment_brute"]
+    ctx.assumptions += [
+        "history mode: the caller edits its own objects in place between calls (tuples replaced, appended, deleted; dict keys "
+        "re-inserted; supply entries overwritten); each call is an input inside the quantifier and is judged on its own",
+        f"size ladder: calls on networks with more than {BIG} arcs get max(0.5, arcs/300) CPU-seconds in the sweep (>= 40x the "
+        "slowest call on the unchanged tree) and 10x that when re-run alone before 'terminates' is reported; after a sweep time-out "
+        "the remaining big calls of that function in the same worker job are skipped and counted",
+        "a feasible flow is of minimum cost iff its residual network has no negative-cost cycle (used to certify returned flows)",
+    ]
+    ctx.trusted += ["oracles/flow_exact.py: mcf_exact / mcf_spfa (both only through certify_optimal / certify_infeasible), mcf_brute, "
+                    "decomposition_costs, pooled_flow_defects, split_pooled, negative_residual_cycle, assignment_brute, "
+                    "hungarian (only through certify_assignment)"]
 
 
 def replay(rec):
@@ -846,8 +1169,15 @@ def replay(rec):
     case = rec["case"]
     ob = rec.get("obligation", "")
     out, info = eval_case(case, budget=BUDGET2, budget_ns=BUDGET2_NS)
-    print("case:", case)
-    if case["kind"] != "assign":
+    print("case:", case if len(str(case)) < 4000 else str(case)[:4000] + "...")
+    if "frame:result-independent" in ob:
+        _o, _i, last = eval_history(case, BUDGET2, BUDGET2_NS, want_last=True)
+        got = fresh_process([last])[0]
+        key = "r_n" if "network_simplex" in ob else "r_m"
+        print("in-process, last call of the sequence:", last[key])
+        print("fresh process, equal objects         :", got.get(key))
+        return 1 if json.loads(json.dumps(last[key])) != got.get(key) else 0
+    if case["kind"] == "flow":
         o = oracle_for(case["n"], [tuple(a) for a in case["arcs"]], list(case["supplies"]))
         print("oracle:", {k: v for k, v in o.items()})
     for o_, d in out:
@@ -856,3 +1186,9 @@ def replay(rec):
     if not out:
         print("replay: no violation")
     return 1 if hit else 0
+
+
+if __name__ == "__main__":
+    if sys.argv[1:] == ["--fresh"]:
+        use_repo()
+        print(json.dumps([fresh_eval(it) for it in json.load(sys.stdin)]))
